@@ -334,6 +334,7 @@ namespace Ptera.Generated.Steps
 open Ptera.Sched
 def toolerLines : List (String × Nat × List Step) := []
 def untoolerLines : List (String × Nat × List Step) := []
+def bystanderLines : List (String × Nat × List Step) := []
 end Ptera.Generated.Steps
 """,
     "Tables.lean": """-- GENERATED (fallback: extraction failed: %s)
